@@ -229,7 +229,7 @@ def writer(fmt: str = "gro", cell: str = "tri", n_atoms: int = 3, strict_box: bo
     X = sym_array("x", (F, N, 3))
     T = sym_array("t", (F,))
     Lh = sym_array("L", (F, 3)) if cell != "none" else None
-    ANG = {"ortho": [90.0, 90.0, 90.0], "tri": [80.0, 100.0, 70.0], "rhomb60": [60.0, 60.0, 60.0], "none": None}[cell]
+    ANG = {"ortho": [90.0, 90.0, 90.0], "tri": [80.0, 100.0, 70.0], "tri2": [80.0, 95.0, 100.0], "rhomb60": [60.0, 60.0, 60.0], "none": None}[cell]
     S.CTX.cons += [z3.And(tz(v) >= -90, tz(v) <= 90) for v in X.flat] + [z3.And(tz(v) >= 0, tz(v) <= 9000) for v in T.flat]
     if Lh is not None:
         S.CTX.cons += [z3.And(tz(v) >= 1, tz(v) <= (59 if cell == "rhomb60" else 90)) for v in Lh.flat]
@@ -507,7 +507,7 @@ xyz = np.array([[[vals.get("x%%d_%%d_%%d" %% (f, i, k), None) for k in range(3)]
 dflt = (np.arange(F * N * 3).reshape(F, N, 3) * 0.37 - 1.3) %% 4.1 - 1.0
 xyz = np.where(xyz == None, dflt, xyz).astype(np.float64)
 times = np.array([vals.get("t%%d" %% f) if vals.get("t%%d" %% f) is not None else [0.0, 0.5, 4.0][f] for f in range(F)], dtype=np.float64)
-ANG = {"ortho": [90.0, 90.0, 90.0], "tri": [80.0, 100.0, 70.0], "rhomb60": [60.0, 60.0, 60.0], "none": None}[cell]
+ANG = {"ortho": [90.0, 90.0, 90.0], "tri": [80.0, 100.0, 70.0], "tri2": [80.0, 95.0, 100.0], "rhomb60": [60.0, 60.0, 60.0], "none": None}[cell]
 L = None if cell == "none" else np.array([[vals.get("L%%d_%%d" %% (f, k)) or (2.0 + 0.5 * k + 0.25 * f) for k in range(3)] for f in range(F)])
 if L is not None: L = np.maximum(L, np.abs(xyz).max() * 0 + 1.0)
 if L is not None and fmt == "pdb": L[:] = L[0]                      # (a PDB file holds one CRYST1 record)
